@@ -309,8 +309,8 @@ def observe(cls, numdepth, hist):
         for c in n.childNodes:
             rec(c, in_eqnarray or name == 'eqnarray')
     rec(doc, False)
-    counters = {k: doc.context.counters[k].value for k in ('section', 'subsection', 'equation', 'figure', 'table',
-                                                            'zzthm', 'zzprop', 'zzu')}
+    counters = {k: doc.context.counters[k].value for k in ('section', 'subsection', 'subsubsection', 'paragraph', 'equation',
+                                                            'figure', 'table', 'zzthm', 'zzprop', 'zzu')}
     if cls == 'book':
         counters['chapter'] = doc.context.counters['chapter'].value
     return out, counters
@@ -320,10 +320,14 @@ def expected(cls, numdepth, hist, dev=0):
     m = LModel(cls, 2 if numdepth is None else numdepth, dev)
     for e in hist:
         m.apply(e)
-    cnt = {k: v for k, v in m.c.items() if k in ('section', 'subsection', 'equation', 'figure', 'table', 'zzthm',
-                                                'zzprop', 'chapter', 'zzu')}
+    cnt = {k: v for k, v in m.c.items() if k in ('section', 'subsection', 'subsubsection', 'paragraph', 'equation', 'figure',
+                                                'table', 'zzthm', 'zzprop', 'chapter', 'zzu')}
     if cls != 'book':
         cnt.pop('chapter', None)
+    if m.numdepth < 4:
+        cnt.pop('paragraph', None)
+    if m.numdepth < 3:
+        cnt.pop('subsubsection', None)
     # counters of units that are below the numbering depth are not compared (LaTeX does not step them)
     if m.numdepth < 2:
         cnt.pop('subsection', None)
